@@ -24,6 +24,7 @@ type c03Scenario struct {
 	LatencyNs  int64      `json:"latency_ns"`
 	Expect     negExpect  `json:"model"`
 	Deviations int        `json:"deviation_pct"`
+	LateFocus  bool       `json:"early_steps_forced_to_succeed,omitempty"`
 }
 
 func init() {
@@ -33,7 +34,7 @@ func init() {
 		Real:  []string{"xmpp.Client.Connect/Resume", "xmpp.NewSession and every negotiation step", "auth (SASL)", "xmpp.XMPPTransport incl. StartTLS over crypto/tls", "stanza codec"},
 		Stub:  []string{"TCP (simnet)", "XMPP server (scripted model with per-step reply alphabet, real crypto/tls server side)", "clock (synctest)", "goroutine scheduling (token scheduler)", "TLS entropy (seeded)"},
 		Run:   runC03,
-		Reach: []string{"c03.success", "c03.previous_session_on_tls", "tls.handshake_complete"},
+		Reach: []string{"c03.success", "c03.previous_session_on_tls", "tls.handshake_complete", "c03.fail.enable-reply", "c03.fail.resume-reply", "c03.fail.session-reply", "c03.fail.bind-reply"},
 	})
 }
 
@@ -42,6 +43,36 @@ func runC03(e *Engine, g G, o RunOpt) RunInfo {
 	sc.Client = genClientOpts(g)
 	sc.Deviations = []int{0, 8, 8, 25}[g.N("devrate", 4)]
 	sc.Server = genNegScript(g, sc.Deviations)
+	if g.Pct("late-focus", 30) {
+		// Every early step succeeds, so that the late steps - bind, the legacy session, enabling stream
+		// management, the answer to <resume/> - are reached with their whole alphabets, not only when
+		// seven independent draws happen to come out well.
+		sc.LateFocus = true
+		sc.Client.TLS, sc.Client.ServerName = TLSCfgRoots, ""
+		sv := &sc.Server
+		sv.Header, sv.Header2, sv.Header3 = HdrOK, HdrOKDecl, HdrOK
+		sv.TLSReply, sv.Cert, sv.AuthReply, sv.AuthCond = TLSProceed, CertGood, AuthSuccess, ""
+		if !sc.Client.Insecure && sv.StartTLS == TLSNone {
+			sv.StartTLS = TLSRequired
+		}
+		sv.Mechs = [][]string{{"PLAIN", "X-OAUTH2"}, {"X-OAUTH2", "SCRAM-SHA-1", "PLAIN"}}[g.N("late-mechs", 2)]
+		switch g.N("late-step", 4) {
+		case 0:
+			sv.Bind = 1 + g.N("late-bind", 11)
+		case 1:
+			sv.Bind, sv.Session, sv.SessionRep = BindOK, SessMandatory, 1+g.N("late-sessionrep", 6)
+		case 2:
+			sc.Client.SM, sv.SM, sv.Bind, sv.SessionRep = true, true, BindOK, SessionOK
+			sv.Enable = []int{EnableFailed, EnableOther, EnableClose, EnableFailedEmpty, EnableNoResume, EnableOK}[g.N("late-enable", 6)]
+		default:
+			// the previous-session draw below decides whether there is something to resume
+			sc.Client.Insecure, sc.Client.SM, sv.SM = true, true, true
+			sv.Resume = g.N("late-resume", 8)
+			if sv.Resume == ResumeUnreadable {
+				sv.ResumeAlt = g.N("resume-alt", len(ResumeUnreadableReplies))
+			}
+		}
+	}
 	if o.Avoiding("bind-error-echo-accepted") && sc.Server.Bind == BindErrorEcho {
 		sc.Server.Bind = BindError
 	}
@@ -50,7 +81,7 @@ func runC03(e *Engine, g G, o RunOpt) RunInfo {
 	}
 	// (a bind result without the <bind/> payload and its JID has not completed the step: RFC 6120
 	// 7.7 - the model treats it like any other reply that is not a confirmation)
-	sc.Pre = sc.Client.Insecure && sc.Client.SM && g.Pct("pre", 40)
+	sc.Pre = sc.Client.Insecure && sc.Client.SM && g.Pct("pre", 40+btoi(sc.LateFocus)*30)
 	// ... or a previous session without stream management
 	sc.PrePlain = !sc.Pre && sc.Client.Insecure && g.Pct("pre-plain", 20)
 	// the previous session was on TLS (the next server may not offer it)
